@@ -1,4 +1,5 @@
 import QcelVerif.Model.RadiiShipped
+import QcelVerif.Model.RadiiFactor
 import QcelVerif.Lib.Proto
 /-! Line-protocol driver for the C17 model.
 
@@ -7,6 +8,13 @@ import QcelVerif.Lib.Proto
   tou <d:neg:coeff:exp | f:p/q | a:p/q,...> <factor p/q>   -> ok value p/q | ok values p/q,...
   mk <kind> <numeric 0|1>                                   -> ok 0|1 | err Validation
   keys <c|v>                                                -> ok xHEX,xHEX,... (first-assignment order)
+
+ops with the unit factor DERIVED from the regenerated CODATA set (Model/RadiiFactor.lean; nothing numeric is
+taken from the implementation except, for `factor`, the double to be judged):
+  factor <2014|2018> <xSRC> <xDST> <implementation's double p/q | ->
+      -> ok <exact factor p/q> <rnd64 of it p/q> <withinTol: 1|0|->      | err Conv (unit outside the quantifier)
+  getfull <2014|2018> <c|v> <rt 0|1> <i INT | s HEX> <missing: N | p/q> <units: N | xHEX>   -> as `get`
+  toufull <2014|2018> <xUNITS of the Datum> <target: N | xHEX> <payload>                    -> as `tou` | err Conv
 -/
 open QcelVerif QcelVerif.PT QcelVerif.PStr QcelVerif.Proto QcelVerif.Radii
 
@@ -74,8 +82,52 @@ def dedup (l : List Bytes) : List Bytes := l.foldl (fun acc k => if acc.contains
 def tableOf (s : String) : Option (Option Table) :=
   if s == "c" then some covLoaded else if s == "v" then some vdwLoaded else none
 
+def codataOf (s : String) : Option Units.Codata :=
+  if s == "2014" then some Units.Gen.codata2014 else if s == "2018" then some Units.Gen.codata2018 else none
+
+def xhex? (s : String) : Option Bytes :=
+  match s.toList with
+  | 'x' :: h => unhex17 h
+  | _ => none
+
+def optXhex? (s : String) : Option (Option Bytes) :=
+  if s == "N" then some none else (xhex? s).map some
+
 def stepC17 (line : String) : String :=
   match splitOnChar line ' ' with
+  | ["factor", yr, src, dst, fi] =>
+    let fimpl : Option (Option Rat) := if fi == "-" then some none else (parseRat? fi).map some
+    match codataOf yr, xhex? src, xhex? dst, fimpl with
+    | some cd, some sb, some db, some f =>
+      match LUnit.ofName sb, LUnit.ofName db with
+      | some su, some du =>
+        match factorQ cd su du with
+        | .ok q =>
+          let tol := match f with
+            | none => "-"
+            | some x => if withinTol x q then "1" else "0"
+          s!"ok {showRat q} {showRat (rnd64 q)} {tol}"
+        | .error _ => "err Conv"
+      | _, _ => "err Conv"
+    | _, _, _, _ => "bad-op"
+  | ["getfull", yr, set, rt, kind, payload, miss, units] =>
+    let arg : Option PyVal :=
+      if kind == "i" then (parseInt? payload).map PyVal.int
+      else if kind == "s" then (unhex17 payload.toList).map PyVal.str
+      else none
+    let missing : Option (Option Rat) := if miss == "N" then some none else (parseRat? miss).map some
+    let rtb : Option Bool := if rt == "1" then some true else if rt == "0" then some false else none
+    match codataOf yr, tableOf set, arg, missing, rtb, optXhex? units with
+    | some cd, some tab, some a, some m, some r, some u =>
+      match tab with
+      | none => "err Load"
+      | some t => showOut (getFull cd shipped t a r u m)
+    | _, _, _, _, _, _ => "bad-op"
+  | ["toufull", yr, u1, u2, p] =>
+    match codataOf yr, xhex? u1, optXhex? u2, parsePayload p with
+    | some cd, some ub, some tb, some pl =>
+      showOut (Datum.toUnitsFull cd { label := [], units := ub, data := pl, comment := none, doi := none } tb)
+    | _, _, _, _ => "bad-op"
   | ["get", set, rt, kind, payload, miss, units, conv] =>
     let arg : Option PyVal :=
       if kind == "i" then (parseInt? payload).map PyVal.int
